@@ -187,6 +187,43 @@ class DataSpace:
                 yield v
 
 
+def simple_values(atoms, max_size, max_width=3):
+    """Every value of <= max_size nodes built from the given atoms, lists ["L", ...] and sequences
+    ["S", ...] only (the AnyTokenExcept family: no delimiters, no maps), smallest first."""
+    memo = {}
+
+    def values(size):
+        if size in memo:
+            return memo[size]
+        out = list(atoms) if size == 1 else []
+        for kids in children(size - 1):
+            out.append(["L"] + list(kids))
+            out.append(["S"] + list(kids))
+        memo[size] = out
+        return out
+
+    def children(total):
+        res = []
+
+        def rec(prefix, left):
+            if left == 0:
+                res.append(tuple(prefix))
+                return
+            if len(prefix) >= max_width:
+                return
+            for sz in range(1, left + 1):
+                for c in values(sz):
+                    prefix.append(c)
+                    rec(prefix, left - sz)
+                    prefix.pop()
+        rec([], total)
+        return res
+
+    for sz in range(1, max_size + 1):
+        for v in values(sz):
+            yield v
+
+
 def depth_of(v):
     if v is None or isinstance(v, str) or v[0] in ("AL", "AM"):
         return 0
@@ -654,6 +691,7 @@ def selftest():
     # word -> word map (seeded/C05-a demo): {a: b}
     assert render(["M", ["a", "b"]], L, MOpt(True, True, None, False, val_same=True)).tokens == ["{", "a", ":", "b", "}"]
     assert "\x0c" in layout(["[", "a", "]"], "exotic") and layout_features(3, "exotic")
+    assert len(list(simple_values(("a", "1"), 3))) == 4 + 8 + 2 * (8 + 16)
     # statements (seeded/C05-w3a demo): "% name ." -> named statement without elements
     assert render(["N", "a"], L, M).tokens == ["%", "a", "."] and expected(["N", "a"]) == ("named", "a", ())
     assert render(["P", "a", ["L", "b"]], L, M).tokens == ["%", "a", "[", "b", "]", ";"]
